@@ -37,12 +37,21 @@ def model_check(rep, wd, tier):
         rep.cov.setdefault("design_model_runs", []).append({"cfg": cfg, "distinct_states": r.distinct, "diameter": r.diameter})
 
 
+def defect_control(rep, wd):
+    """The options-barrier defect switch of the design model (barrier opens when the batch is taken) must be refuted."""
+    r = vlib.tlc("MC_SearchControl.tla", "MC_SearchControl_optsdefect.cfg", os.path.join(wd, "mc_optsdefect"), workers=4, timeout=900, xmx="8g")
+    if r.violated != "OptionsInEffectAtGo":
+        raise vlib.ToolFailure("vacuity control failed: SearchControl with BarrierOnTaken=TRUE was not refuted: " + r.out[-600:])
+    rep.cov["design_defect_switches_refuted"] = ["BarrierOnTaken (OptionsInEffectAtGo)"]
+
+
 def run(tier, seed):
     rep = vlib.Report(PID, tier, seed, "model_checking")
     bdir, _ = vlib.build("plain", ["texel-" + n for n in sessions.NETS])
     wd = vlib.rundir(PID)
     sz = SIZES[tier]
     model_check(rep, wd, tier)
+    defect_control(rep, wd)
     rnd = random.Random(seed * 1009 + 10)
     jobs = []
     for i in range(sz["runs"]):
